@@ -65,13 +65,13 @@ TimeAt(w, c) == CASE w = "all"    -> "Valid"
 Namings == {"canon", "selfissued", "likeparent", "nomatch", "rootissuer", "dupsubject", "rootsubject"}
 X509El(by, key, sigBy) == [kind |-> "x509", by |-> by, key |-> key, sigBy |-> sigBy, time |-> "Valid",
                            curve |-> "P256", binds |-> TRUE, keyValid |-> TRUE, naming |-> "canon",
-                           win |-> "all"]
+                           win |-> "all", label |-> "plain"]
 AttEl(by)   == [kind |-> "attkey", by |-> by, key |-> "att", sigBy |-> by, time |-> "na",
-                curve |-> "P256", binds |-> TRUE, keyValid |-> TRUE, naming |-> "na", win |-> "na"]
+                curve |-> "P256", binds |-> TRUE, keyValid |-> TRUE, naming |-> "na", win |-> "na", label |-> "plain"]
 QuoteEl(by) == [kind |-> "quote", by |-> by, key |-> NoKey, sigBy |-> by, time |-> "na",
-                curve |-> "na", binds |-> TRUE, keyValid |-> TRUE, naming |-> "na", win |-> "na"]
+                curve |-> "na", binds |-> TRUE, keyValid |-> TRUE, naming |-> "na", win |-> "na", label |-> "plain"]
 GoodRot == [kind |-> "x509", by |-> RootName, key |-> RootName, sigBy |-> RootName, time |-> "Valid",
-            curve |-> "P256", binds |-> TRUE, keyValid |-> TRUE, naming |-> "canon", win |-> "all"]
+            curve |-> "P256", binds |-> TRUE, keyValid |-> TRUE, naming |-> "canon", win |-> "all", label |-> "plain"]
 
 ParentOfX(i) == IF i = 1 THEN RootName ELSE XNames[i - 1]
 \* d X.509 elements x1 (top) .. xd (certifies the attestation key), attestation key, quote, and
@@ -293,8 +293,21 @@ Tick == /\ phase = "done" /\ outcome # "loaderror" /\ Len(clks) < MaxRounds /\ T
         /\ outcome' = None /\ failing' = None /\ reported' = None
         /\ UNCHANGED <<ndef, nren, scale, len, tz, visited>>
 
+\* The NAME an element has in the file (`name`, and `signed_by` of what it certifies) is free in version 2,
+\* except for the reserved "sgx_root".  label = "sub": the name is a proper substring of the reserved
+\* name ("s", "x", "_", "root", "sgx", "sgx_", "_root", "gx_roo", "" ...); "odd": a super-string
+\* ("sgx_root2", "xsgx_root"), a case variant ("SGX_ROOT"), a version-1 reserved word ("device", "ui",
+\* "signer"), a name with blanks / non-ASCII characters, a very long name, or another element's name in
+\* another case.  Names only link elements; no verdict may depend on how they are spelt.
+Labels == {"plain", "sub", "odd"}
+Relabel == /\ phase = "env" /\ ndef < MaxDefects /\ ndef < MaxWithRename /\ nren < MaxRenames
+           /\ \E n \in DOMAIN cert \ {RootName}, l \in Labels \ {"plain"} :
+                 /\ cert[n].label = "plain" /\ cert' = [cert EXCEPT ![n].label = l]
+           /\ ndef' = ndef + 1 /\ nren' = nren + 1
+           /\ UNCHANGED <<rot, scale, len, tz, clks, outs, sysv, obsv>>
+
 SysNext == Start \/ ParseStep \/ Build \/ Walk
-Next == Mutate \/ MutateName \/ Stretch \/ Shift \/ Lengthen \/ SysNext \/ Tick
+Next == Mutate \/ MutateName \/ Stretch \/ Shift \/ Lengthen \/ Relabel \/ SysNext \/ Tick
 Spec == Init /\ [][Next]_vars /\ WF_vars(Next)
 
 (***************************************************************************)
